@@ -12,11 +12,11 @@ from typing import Dict, List, Optional
 from .interp_keys import nk
 from .vals import EMPTY, NONE, UNKNOWN, Val, join, joinall, mk_bool, mk_int, mk_str
 
-KRANK = {"N": 0, "I": 1, "Z": 2, "Q": 3, "U": 4, "F": 5}
+KRANK = {"N": 0, "I": 1, "Z": 2, "Q": 3, "L": 3.5, "U": 4, "F": 5}  # L: an integer obtained by truncating a library float
 NUMERIC_TAGS = {
-    "cls:int": {"I", "Z"},
-    "cls:np.integer": {"I", "Z"},
-    "cls:np.int64": {"I", "Z"},
+    "cls:int": {"I", "Z", "L"},
+    "cls:np.integer": {"I", "Z", "L"},
+    "cls:np.int64": {"I", "Z", "L"},
     "cls:Fraction": {"Q"},
     "cls:float": {"F"},
     "cls:np.floating": {"F"},
@@ -60,6 +60,8 @@ class ModelsMixin:
                     fs.add(f"{self.loc(node)}: true division of two library integers `{ast.unparse(node)[:60]}`")
                     return "F"
                 return "Q"
+            if "L" in (a, b) and "F" not in (a, b) and "U" not in (a, b):
+                return "L"
             if isinstance(op, ast.FloorDiv) and KRANK[a] <= 2 and KRANK[b] <= 2:
                 return a if KRANK[a] >= KRANK[b] else b
             if isinstance(op, ast.Div) and KRANK[a] <= 3 and KRANK[b] <= 3:
@@ -85,7 +87,7 @@ class ModelsMixin:
         dep = frozenset().union(*[o.all_dep() for o in ops])
         mdep = frozenset().union(*[o.mdep for o in ops])
         fsrc = frozenset().union(*[o.all_fsrc() for o in ops]) | fs
-        if "F" not in k:
+        if "F" not in k and "L" not in k:
             fsrc = EMPTY
         tys = frozenset().union(*[o.ty for o in ops])
         num = {"int", "float", "number", "bool"}
